@@ -119,13 +119,11 @@ func extra2C03(c *Ctx) {
 	}
 
 	c.Rule("C03-R12", "downloadBlob reports a cache hit only for a file that was already complete when it was called: a return whose cacheHit result is not the constant false lies on the success edge of the os.Stat of the final blob path, before any download is looked up or started (a caller that merely joins a download in flight must verify like the one that started it)")
-	c.Rule("C03-R13", "the download registry never keeps an entry whose download was not started: on the edge where LoadOrStore stored a new entry, every return passes either `go download.Run` or blobDownloadManager.Delete(digest)")
 	if f := c.Fn("C03-R12", "server", "downloadBlob"); f != nil {
 		g := c.G(f)
 		stats := g.FindCalls("os.Stat")
 		loads := g.FindCalls("sync.Map.LoadOrStore")
 		c.Expect("C03-R12", "os.Stat calls in downloadBlob", len(stats), 1)
-		c.Expect("C03-R13", "LoadOrStore calls in downloadBlob", len(loads), 1)
 		n := 0
 		for _, ex := range g.Returns() {
 			if len(ex.Return.Results) != 2 {
@@ -144,45 +142,7 @@ func extra2C03(c *Ctx) {
 			c.Check("C03-R12", f.Key()+" return:cacheHit="+r0, c.Pos(ex.Return), ok, "cacheHit may be true only where os.Stat found the final file, before the download registry is consulted")
 		}
 		c.Expect("C03-R12", "cache-hit returns in downloadBlob", n, 1)
-		// R13
-		for _, ld := range loads {
-			loaded := core.ResultVar(info, ld.Top, ld.Node.(*ast.CallExpr), 1)
-			if loaded == nil {
-				c.Violation("C03-R13", f.Key()+" LoadOrStore loaded flag kept", c.Pos(ld.Node), "the loaded result is dropped")
-				continue
-			}
-			checked := 0
-			for _, cb := range g.CondBlocks() {
-				e := ast.Unparen(cb.Cond)
-				neg := false
-				if u, ok := e.(*ast.UnaryExpr); ok && u.Op == token.NOT {
-					neg = true
-					e = ast.Unparen(u.X)
-				}
-				id, ok := e.(*ast.Ident)
-				if !ok || info.Uses[id] != loaded {
-					continue
-				}
-				checked++
-				fresh := 1 // false edge: !loaded
-				if neg {
-					fresh = 0
-				}
-				bad := g.MustPass(core.StartOf(cb.B.Succs[fresh]), func(nd ast.Node, l core.Loc) bool {
-					if gs, isGo := nd.(*ast.GoStmt); isGo && strings.HasSuffix(core.CalleeName(info, gs.Call), "blobDownload.Run") {
-						return true
-					}
-					for _, call := range core.CallsTo(info, nd, false, "sync.Map.Delete") {
-						if strings.Contains(core.ExprString(call.Fun), "blobDownloadManager") {
-							return true
-						}
-					}
-					return false
-				}, nil)
-				c.Check("C03-R13", f.Key()+" new registry entry is started or removed on every path", c.Pos(cb.Cond), len(bad) == 0, exitList(c, bad, "return with a registered download that was neither started nor removed: every later pull of this digest waits on it for ever"))
-			}
-			c.Expect("C03-R13", "tests of the loaded flag", checked, 1)
-		}
+		ruleDownloadEntryLifecycle(c, "C03-R13")
 	}
 }
 
@@ -2323,4 +2283,437 @@ func extra3C11(c *Ctx) {
 		})
 	}
 	c.Check("C11-R10", "envconfig.MaxRunners = Uint(OLLAMA_MAX_LOADED_MODELS)", "-", okMR, "")
+}
+
+// ---------------------------------------------------------------------------- C20-R6
+
+func init() {
+	prev := registry["C20"].Run
+	registry["C20"].Run = func(c *Ctx) { prev(c); extra3C20(c) }
+}
+
+func extra3C20(c *Ctx) {
+	c.Rule("C20-R6", "a queued pair is merged only if it is still the pair that was queued: in the byte-pair merge loop the store that joins two nodes (…runes = append(left.runes, right.runes...)) is reached only past a staleness test in which the concatenation of the two nodes' current text is compared for equality with the value recorded in the pair, and past the vocabulary look-up of that same value on its >= 0 edge (a prefix/suffix comparison accepts a node that has grown: the joined text is then not the looked-up entry, is in no vocabulary entry, and is dropped from the output)")
+	info := c.P.Pkgs["model"].TypesInfo
+	f := c.Fn("C20-R6", "model", "BytePairEncoding.Encode")
+	if f == nil {
+		return
+	}
+	g := c.G(f)
+	n := 0
+	for _, h := range g.Find(func(nd ast.Node) bool {
+		as, ok := nd.(*ast.AssignStmt)
+		if !ok || len(as.Lhs) != 1 || len(as.Rhs) != 1 || selName(as.Lhs[0]) != "runes" {
+			return false
+		}
+		ap := core.CallsTo(info, as.Rhs[0], false, "builtin.append")
+		return len(ap) == 1 && ap[0].Ellipsis.IsValid() && selName(ap[0].Args[0]) == "runes" && selName(ap[0].Args[1]) == "runes"
+	}) {
+		n++
+		ap := core.CallsTo(info, h.Node.(*ast.AssignStmt).Rhs[0], false, "builtin.append")[0]
+		lObj, rObj := core.PathOf(info, ap.Args[0]).Root, core.PathOf(info, ap.Args[1]).Root
+		exact, vocab := false, false
+		var valueExpr string
+		for _, a := range g.AtomsAt(h.Loc) {
+			be, ok := ast.Unparen(a.Expr).(*ast.BinaryExpr)
+			if !ok {
+				continue
+			}
+			// string(left.runes)+string(right.runes) != pair.value   known false  (or == known true)
+			if (be.Op == token.NEQ && !a.Val) || (be.Op == token.EQL && a.Val) {
+				for _, pair := range [][2]ast.Expr{{be.X, be.Y}, {be.Y, be.X}} {
+					cat, isB := ast.Unparen(pair[0]).(*ast.BinaryExpr)
+					if !isB || cat.Op != token.ADD || selName(pair[1]) != "value" {
+						continue
+					}
+					if lObj != nil && rObj != nil && core.UsesObj(info, cat.X, lObj) && core.UsesObj(info, cat.Y, rObj) && mentionsSel(cat.X, "runes") && mentionsSel(cat.Y, "runes") {
+						exact = true
+						valueExpr = core.ExprString(pair[1])
+					}
+				}
+			}
+			// id := vocab.Encode(pair.value); id < 0 known false
+			if id, isID := ast.Unparen(be.X).(*ast.Ident); isID {
+				if v, isC := core.ConstInt(info, be.Y); isC && v == 0 && ((be.Op == token.LSS && !a.Val) || (be.Op == token.GEQ && a.Val)) {
+					for _, as := range g.AssignsTo(info.Uses[id]) {
+						for _, enc := range core.CallsTo(info, as.Node, false, "model.Vocabulary.Encode") {
+							if valueExpr == "" || core.ExprString(enc.Args[0]) == valueExpr {
+								vocab = true
+							}
+						}
+					}
+				}
+			}
+		}
+		why := ""
+		switch {
+		case !exact:
+			why = "no exact comparison of the two nodes' joined text with the pair's recorded value guards the merge"
+		case !vocab:
+			why = "the merge is not behind a successful vocabulary look-up of the recorded value"
+		}
+		c.Check("C20-R6", f.Key()+" merge#"+itoa(n)+" only for a pair that is still current and in the vocabulary", c.Pos(h.Node), why == "", why)
+	}
+	c.Expect("C20-R6", "node joins in the merge loop", n, 1)
+}
+
+// ---------------------------------------------------------------------------- C19-R6
+
+func init() {
+	prev := registry["C19"].Run
+	registry["C19"].Run = func(c *Ctx) { prev(c); extra3C19(c) }
+}
+
+func extra3C19(c *Ctx) {
+	info := c.P.Pkgs["server"].TypesInfo
+	c.Rule("C19-R6", "what chatPrompt decided is what the runner gets, and it decided for the request's context length: scheduleRunner does not change the options it returns after the scheduler answered (the loaded runner's NumCtx is multiplied by the number of parallel slots); in ChatHandler the options given to chatPrompt are scheduleRunner's, and the prompt and image list it returns are assigned once and passed unchanged as Prompt and Images of the completion request")
+	if f := c.Fn("C19-R6", "server", "Server.scheduleRunner"); f != nil {
+		g := c.G(f)
+		var optsObj types.Object
+		for _, ex := range g.Returns() {
+			if len(ex.Return.Results) == 4 {
+				if u, ok := ast.Unparen(ex.Return.Results[2]).(*ast.UnaryExpr); ok && u.Op == token.AND {
+					if id, isID := ast.Unparen(u.X).(*ast.Ident); isID {
+						optsObj = info.Uses[id]
+					}
+				}
+			}
+		}
+		grs := g.FindCalls("server.Scheduler.GetRunner")
+		if optsObj == nil || len(grs) != 1 {
+			c.Undecided("C19-R6", "anchor:&opts returned by scheduleRunner / GetRunner call", "-", "anchor lost")
+		} else {
+			bad := ""
+			ast.Inspect(f.Body, func(n ast.Node) bool {
+				as, ok := n.(*ast.AssignStmt)
+				if !ok {
+					return true
+				}
+				for _, l := range as.Lhs {
+					p := core.PathOf(info, l)
+					if p.Valid() && p.Root == optsObj && g.Reaches(grs[0].Loc, g.Locate(as)) {
+						bad = "store to " + core.ExprString(l) + " at " + c.Pos(as) + " after the scheduler answered"
+					}
+				}
+				return true
+			})
+			c.Check("C19-R6", f.Key()+" returned options are the ones the request was scheduled with", c.Pos(f.Decl), bad == "", bad)
+		}
+	}
+	if f := c.Fn("C19-R6", "server", "Server.ChatHandler"); f != nil {
+		g := c.G(f)
+		cps := g.FindCalls("server.chatPrompt")
+		srs := g.FindCalls("server.Server.scheduleRunner")
+		if len(cps) != 1 || len(srs) != 1 {
+			c.Undecided("C19-R6", "anchor:chatPrompt and scheduleRunner calls in ChatHandler", "-", "anchor lost")
+			return
+		}
+		cp := cps[0].Node.(*ast.CallExpr)
+		optsVar := core.ResultVar(info, srs[0].Top, srs[0].Node.(*ast.CallExpr), 2)
+		okOpts := optsVar != nil && len(cp.Args) >= 4 && isIdentOf(info, cp.Args[3], optsVar)
+		if okOpts {
+			for _, fn := range append([]*core.Func{f}, f.Lits()...) {
+				for _, as := range c.G(fn).AssignsTo(optsVar) {
+					if as.Node != srs[0].Top {
+						okOpts = false
+					}
+				}
+			}
+		}
+		c.Check("C19-R6", f.Key()+" chatPrompt gets scheduleRunner's options", c.Pos(cp), okOpts, "the options chatPrompt truncates against must be the variable scheduleRunner returned, not reassigned")
+		promptVar := core.ResultVar(info, cps[0].Top, cp, 0)
+		imagesVar := core.ResultVar(info, cps[0].Top, cp, 1)
+		for role, v := range map[string]types.Object{"Prompt": promptVar, "Images": imagesVar} {
+			ok := v != nil
+			if ok {
+				for _, fn := range append([]*core.Func{f}, f.Lits()...) {
+					for _, as := range c.G(fn).AssignsTo(v) {
+						if as.Node != cps[0].Top {
+							ok = false
+						}
+					}
+				}
+			}
+			// passed as the field of the completion request
+			passed := false
+			for _, fn := range append([]*core.Func{f}, f.Lits()...) {
+				ast.Inspect(fn.Body, func(n ast.Node) bool {
+					cl, isCl := n.(*ast.CompositeLit)
+					if !isCl || core.ObjNameOfType(info.TypeOf(cl)) != "llm.CompletionRequest" {
+						return true
+					}
+					for _, el := range cl.Elts {
+						if kv, isKV := el.(*ast.KeyValueExpr); isKV {
+							if k, isID := kv.Key.(*ast.Ident); isID && k.Name == role && v != nil && isIdentOf(info, kv.Value, v) {
+								passed = true
+							}
+						}
+					}
+					return true
+				})
+			}
+			c.Check("C19-R6", f.Key()+" completion request "+role+" is chatPrompt's result, unchanged", c.Pos(cp), ok && passed, "the value returned by chatPrompt must be assigned once and be the "+role+" of llm.CompletionRequest")
+		}
+	}
+}
+
+// ---------------------------------------------------------------------------- C17-R8, C16-R8, C18-R8
+
+func init() {
+	wrap := func(id string, extra func(c *Ctx)) {
+		prev := registry[id].Run
+		registry[id].Run = func(c *Ctx) { prev(c); extra(c) }
+	}
+	wrap("C17", extra4C17)
+	wrap("C16", extra4C16)
+	registry["C16"].Pkgs = append(registry["C16"].Pkgs, "server")
+	wrap("C18", extra4C18)
+}
+
+func extra4C17(c *Ctx) {
+	c.Rule("C17-R8", "nothing the producer has to say is dropped: in the goroutines GenerateHandler and ChatHandler start, every send on the handler's channel is a plain blocking send — none is an arm of a select that has a default arm (the channel is unbuffered; a non-blocking send of the runner's error is lost whenever the handler is busy with the previous chunk, and the stream ends with neither a final message nor an error)")
+	info := c.P.Pkgs["server"].TypesInfo
+	for _, name := range []string{"Server.GenerateHandler", "Server.ChatHandler"} {
+		f := c.Fn("C17-R8", "server", name)
+		if f == nil {
+			continue
+		}
+		// the channel: make(chan any) assigned in the handler
+		var ch types.Object
+		ast.Inspect(f.Body, func(n ast.Node) bool {
+			as, ok := n.(*ast.AssignStmt)
+			if !ok || len(as.Lhs) != 1 || len(as.Rhs) != 1 {
+				return true
+			}
+			if call, isC := ast.Unparen(as.Rhs[0]).(*ast.CallExpr); isC && core.CalleeName(info, call) == "builtin.make" {
+				if _, isCh := info.TypeOf(call).Underlying().(*types.Chan); isCh {
+					if id, isID := as.Lhs[0].(*ast.Ident); isID {
+						ch = info.ObjectOf(id)
+					}
+				}
+			}
+			return true
+		})
+		if ch == nil {
+			c.Undecided("C17-R8", "anchor:channel of "+name, "-", "anchor lost")
+			continue
+		}
+		n, bad := 0, ""
+		ast.Inspect(f.Body, func(x ast.Node) bool {
+			sel, ok := x.(*ast.SelectStmt)
+			if !ok {
+				return true
+			}
+			hasDefault, sends := false, false
+			for _, cl := range sel.Body.List {
+				cc := cl.(*ast.CommClause)
+				if cc.Comm == nil {
+					hasDefault = true
+				} else if ss, isS := cc.Comm.(*ast.SendStmt); isS && isIdentOf(info, ss.Chan, ch) {
+					sends = true
+				}
+			}
+			if hasDefault && sends {
+				bad = "non-blocking send at " + c.Pos(sel)
+			}
+			return true
+		})
+		ast.Inspect(f.Body, func(x ast.Node) bool {
+			if ss, ok := x.(*ast.SendStmt); ok && isIdentOf(info, ss.Chan, ch) {
+				n++
+			}
+			return true
+		})
+		c.Check("C17-R8", f.Key()+" sends to the handler are blocking", c.Pos(f.Decl), bad == "" && n >= 3, bad)
+	}
+}
+
+func extra4C16(c *Ctx) {
+	c.Rule("C16-R8", "a fit is predicted for the configuration that is committed: in pickBestFullFitByLibrary every PredictServerFit call is made for the loop's parallelism p with the request's context already scaled to it (req.opts.NumCtx = origNumCtx × p stored earlier in the same iteration), and on its ok edge that same p is what is written to *numParallel (predicting with the context left over from another p declares a fit for a configuration that was never estimated)")
+	sp := c.P.Pkgs["server"]
+	if sp == nil {
+		c.Undecided("C16-R8", "anchor:package server", "-", "package not loaded")
+		return
+	}
+	info := sp.TypesInfo
+	f := c.Fn("C16-R8", "server", "pickBestFullFitByLibrary")
+	if f == nil {
+		return
+	}
+	g := c.G(f)
+	n := 0
+	for _, h := range g.FindCalls("llm.PredictServerFit") {
+		n++
+		call := h.Node.(*ast.CallExpr)
+		// the enclosing loop whose variable is the parallelism handed to the prediction
+		var rs *ast.RangeStmt
+		var pObj types.Object
+		for _, rl := range rangeLoops(f) {
+			if !within(rl.Stmt, call) || len(call.Args) != 6 {
+				continue
+			}
+			if id, ok := rl.Stmt.Value.(*ast.Ident); ok && isIdentOf(info, call.Args[5], info.Defs[id]) {
+				rs, pObj = rl.Stmt, info.Defs[id]
+			}
+		}
+		isR := rs != nil
+		okP := pObj != nil
+		// the scaling store precedes the call in this iteration
+		okCtx := false
+		if isR && pObj != nil {
+			for _, st := range g.Find(func(nd ast.Node) bool {
+				as, ok := nd.(*ast.AssignStmt)
+				return ok && len(as.Lhs) == 1 && len(as.Rhs) == 1 && selName(as.Lhs[0]) == "NumCtx" && within(rs.Body, as)
+			}) {
+				as := st.Node.(*ast.AssignStmt)
+				be, isB := ast.Unparen(as.Rhs[0]).(*ast.BinaryExpr)
+				if !isB || be.Op != token.MUL {
+					continue
+				}
+				scaled := (selName(be.X) == "origNumCtx" && isIdentOf(info, be.Y, pObj)) || (selName(be.Y) == "origNumCtx" && isIdentOf(info, be.X, pObj))
+				if scaled && g.Dominates(st.Loc, h.Loc) && st.Loc != h.Loc {
+					okCtx = true
+				}
+			}
+		}
+		// on the ok edge *numParallel = p
+		okCommit := false
+		for _, st := range g.Find(func(nd ast.Node) bool {
+			as, ok := nd.(*ast.AssignStmt)
+			if !ok || len(as.Lhs) != 1 {
+				return false
+			}
+			_, isStar := ast.Unparen(as.Lhs[0]).(*ast.StarExpr)
+			return isStar && isR && within(rs.Body, as)
+		}) {
+			as := st.Node.(*ast.AssignStmt)
+			if pObj != nil && isIdentOf(info, as.Rhs[0], pObj) {
+				// on the true edge of the bool the prediction returned
+				okVar := core.ResultVar(info, h.Top, call, 0)
+				for _, a := range g.AtomsAt(st.Loc) {
+					if id, isID := ast.Unparen(a.Expr).(*ast.Ident); isID && a.Val && okVar != nil && info.Uses[id] == okVar && g.Dominates(h.Loc, st.Loc) {
+						okCommit = true
+					}
+				}
+			}
+		}
+		c.Check("C16-R8", f.Key()+" PredictServerFit#"+itoa(n)+" is made for the configuration that is committed", c.Pos(call), okP && okCtx && okCommit, "the context must be scaled to p before the prediction and *numParallel = p written on its ok edge")
+	}
+	c.Expect("C16-R8", "PredictServerFit calls in pickBestFullFitByLibrary", n, 2)
+}
+
+func extra4C18(c *Ctx) {
+	c.Rule("C18-R8", "top-k keeps the k largest: in topK's scan over the remaining elements a candidate replaces the smallest kept element when its value exceeds the current root of the min-heap, read from the heap at the time of the comparison (h[0].value of the variable handed to heap.Pop/heap.Push — not a local copy that can be stale after a replacement)")
+	info := c.P.Pkgs["sample"].TypesInfo
+	fVal := c.P.LookupField("sample", "token", "value")
+	f := c.Fn("C18-R8", "sample", "topK")
+	if f == nil {
+		return
+	}
+	g := c.G(f)
+	pops := g.FindCalls("container/heap.Pop")
+	var heapObj types.Object
+	var scan *core.Hit
+	for i := range pops {
+		call := pops[i].Node.(*ast.CallExpr)
+		if u, ok := ast.Unparen(call.Args[0]).(*ast.UnaryExpr); ok && u.Op == token.AND {
+			if id, isID := ast.Unparen(u.X).(*ast.Ident); isID {
+				// the Pop that is followed by a Push in the same block is the replacement
+				for _, nd := range g.Nodes(pops[i].Loc.B) {
+					if len(core.CallsTo(info, nd, false, "container/heap.Push")) == 1 {
+						heapObj = info.Uses[id]
+						scan = &pops[i]
+					}
+				}
+			}
+		}
+	}
+	if heapObj == nil || scan == nil {
+		c.Undecided("C18-R8", "anchor:heap.Pop followed by heap.Push in topK", "-", "anchor lost")
+		return
+	}
+	ok := false
+	for _, a := range g.AtomsAt(scan.Loc) {
+		be, isB := ast.Unparen(a.Expr).(*ast.BinaryExpr)
+		if !isB || !a.Val {
+			continue
+		}
+		isRoot := func(e ast.Expr) bool {
+			if core.LastField(info, e) != fVal {
+				return false
+			}
+			se, isSel := ast.Unparen(e).(*ast.SelectorExpr)
+			if !isSel {
+				return false
+			}
+			ix, isIx := ast.Unparen(se.X).(*ast.IndexExpr)
+			if !isIx || !isIdentOf(info, ix.X, heapObj) {
+				return false
+			}
+			v, isC := core.ConstInt(info, ix.Index)
+			return isC && v == 0
+		}
+		_, y, op, okO := core.Orient(be, func(e ast.Expr) bool { return core.LastField(info, e) == fVal && !isRoot(e) })
+		if okO && isRoot(y) && (op == token.GTR || op == token.GEQ) {
+			ok = true
+		}
+	}
+	c.Check("C18-R8", f.Key()+" replacement test reads the heap's current root", c.Pos(scan.Node), ok, "the candidate must be compared with h[0].value of the heap itself; a cached copy goes stale when the replaced element was not followed by the next smallest")
+}
+
+// ruleDownloadEntryLifecycle is C03-R13; C15 re-runs it (C15-R6) because a stale entry makes a
+// later pull call a nil CancelFunc in a goroutine outside gin's recovery.
+func ruleDownloadEntryLifecycle(c *Ctx, rule string) {
+	info := c.P.Pkgs["server"].TypesInfo
+	c.Rule(rule, "the download registry never keeps an entry whose download was not started: on the edge where LoadOrStore stored a new entry, every return passes either `go download.Run` or blobDownloadManager.Delete(digest)")
+	f := c.Fn(rule, "server", "downloadBlob")
+	if f == nil {
+		return
+	}
+	g := c.G(f)
+	loads := g.FindCalls("sync.Map.LoadOrStore")
+	c.Expect(rule, "LoadOrStore calls in downloadBlob", len(loads), 1)
+		for _, ld := range loads {
+			loaded := core.ResultVar(info, ld.Top, ld.Node.(*ast.CallExpr), 1)
+			if loaded == nil {
+				c.Violation(rule, f.Key()+" LoadOrStore loaded flag kept", c.Pos(ld.Node), "the loaded result is dropped")
+				continue
+			}
+			checked := 0
+			for _, cb := range g.CondBlocks() {
+				e := ast.Unparen(cb.Cond)
+				neg := false
+				if u, ok := e.(*ast.UnaryExpr); ok && u.Op == token.NOT {
+					neg = true
+					e = ast.Unparen(u.X)
+				}
+				id, ok := e.(*ast.Ident)
+				if !ok || info.Uses[id] != loaded {
+					continue
+				}
+				checked++
+				fresh := 1 // false edge: !loaded
+				if neg {
+					fresh = 0
+				}
+				bad := g.MustPass(core.StartOf(cb.B.Succs[fresh]), func(nd ast.Node, l core.Loc) bool {
+					if gs, isGo := nd.(*ast.GoStmt); isGo && strings.HasSuffix(core.CalleeName(info, gs.Call), "blobDownload.Run") {
+						return true
+					}
+					for _, call := range core.CallsTo(info, nd, false, "sync.Map.Delete") {
+						if strings.Contains(core.ExprString(call.Fun), "blobDownloadManager") {
+							return true
+						}
+					}
+					return false
+				}, nil)
+				c.Check(rule, f.Key()+" new registry entry is started or removed on every path", c.Pos(cb.Cond), len(bad) == 0, exitList(c, bad, "return with a registered download that was neither started nor removed: every later pull of this digest waits on it for ever"))
+			}
+			c.Expect(rule, "tests of the loaded flag", checked, 1)
+		}
+}
+
+func init() {
+	prev := registry["C15"].Run
+	registry["C15"].Run = func(c *Ctx) { prev(c); ruleDownloadEntryLifecycle(c, "C15-R6") }
 }
